@@ -157,16 +157,20 @@ type Info struct {
 
 // All returns every node under root in pre-order (root first).
 func All(root parser.Node) []Info {
+	// iterative (pre-order): trees may be millions of nodes deep
 	var out []Info
-	var rec func(n, parent parser.Node, field string, depth int)
-	rec = func(n, parent parser.Node, field string, depth int) {
-		out = append(out, Info{Node: n, Parent: parent, Field: field, Depth: depth})
-		for _, c := range Children(n) {
-			rec(c.Node, n, c.Field, depth+1)
-		}
+	if IsNilNode(root) {
+		return out
 	}
-	if !IsNilNode(root) {
-		rec(root, nil, "", 0)
+	stack := []Info{{Node: root}}
+	for len(stack) > 0 {
+		in := stack[len(stack)-1]
+		stack = stack[:len(stack)-1]
+		out = append(out, in)
+		cs := Children(in.Node)
+		for i := len(cs) - 1; i >= 0; i-- {
+			stack = append(stack, Info{Node: cs[i].Node, Parent: in.Node, Field: cs[i].Field, Depth: in.Depth + 1})
+		}
 	}
 	return out
 }
